@@ -40,8 +40,11 @@ def _parse_time(value):
 
 
 def _parse_data(value):
-    if not value.startswith('(') and value.endswith(')'):
+    if not (value.startswith('(') and value.endswith(')')):
         raise ValueError('missing parentheses in data message')
+
+    if value == '()':
+        return []
 
     try:
         return [int(byte) for byte in value[1:-1].split(',')]
@@ -56,13 +59,23 @@ def str2msg(text):
     calling check_msgdict().
     """
     words = text.split()
+    if not words:
+        raise ValueError('message string is empty')
+
     type_ = words[0]
     args = words[1:]
+
+    if type_ not in SPEC_BY_TYPE:
+        raise ValueError(f'unknown message type {type_!r}')
+    attribute_names = SPEC_BY_TYPE[type_]['attribute_names']
 
     msg = {}
 
     for arg in args:
         name, value = arg.split('=', 1)
+        if name == 'type' or name not in attribute_names:
+            raise ValueError(f'{type_} message has no attribute {name}')
+
         if name == 'time':
             value = _parse_time(value)
         elif name == 'data':
